@@ -155,6 +155,15 @@ impl IDLStore {
     fn gather_symbols_from_ast(ast: &Ast, map: &mut HashMap<Symbol, (Rc<Node>, PathBuf)>) {
         let tag = &ast.tag;
         for node in &ast.nodes {
+            // Types and constants are keyed separately but share one namespace in
+            // the generated code.
+            let taken_by_other_kind = match node.as_ref() {
+                Node::Struct(s) => map.contains_key(&Symbol::Const(s.ident.to_string())),
+                Node::Interface(i) => map.contains_key(&Symbol::Const(i.ident.to_string())),
+                Node::Const(c) => map.contains_key(&Symbol::Struct(c.ident.to_string())),
+                _ => false,
+            };
+            assert!(!taken_by_other_kind, "Duplicate symbol detected!");
             assert_eq!(
                 match node.as_ref() {
                     Node::Struct(s) => map.insert(
